@@ -138,6 +138,22 @@ def run_property(pid, tier, seed):
         finally:
             sess.close()
 
+    # ---------------- native bounded stand-ins (never counted as proved) ----------------
+    for u, ob in sel:
+        if u['backend'] != 'native':
+            continue
+        from . import replay as replay_mod
+        tn = time.time()
+        confirmed, text = replay_mod.run_replay({'replay': ob['recipe'], 'inputs': None})
+        solver_time[ob['id']] = round(time.time() - tn, 2)
+        cmds.append('replay_runner ' + ' '.join(ob['recipe']))
+        if confirmed is True:
+            results[ob['id']] = {'status': 'failed', 'backend': 'native-bounded', 'messages': [{'message': text[:600]}], 'witness': text, 'native_confirmed': True}
+        elif confirmed is False:
+            results[ob['id']] = {'status': 'discharged', 'backend': 'native-bounded', 'summary': text[:300]}
+        else:
+            results[ob['id']] = {'status': 'undecided', 'backend': 'native-bounded', 'why': text[:300]}
+
     # ---------------- Verus ----------------
     verus_units = {}
     for u, ob in sel:
@@ -238,7 +254,12 @@ def finish(pid, tier, seed, sel, results, cmds, solver_time, assumptions, units,
                'inputs': inputs, 'playback': r.get('playback'), 'replay': ob.get('replay'),
                'witness': r.get('witness')}
         confirmed = None
-        if ob.get('replay') and (inputs or not ob.get('inputs')):
+        if r.get('native_confirmed'):
+            confirmed = True
+            doc['replay'] = ob.get('recipe')
+            doc['replay_output'] = r.get('witness')
+            doc['replay_confirms_violation'] = True
+        elif ob.get('replay') and (inputs or not ob.get('inputs')):
             from . import replay as replay_mod
             confirmed, text = replay_mod.run_replay(doc)
             doc['replay_output'] = text
